@@ -108,6 +108,12 @@ R = {
     "prov_ring_edges": tiered(extra.prov_ring_edges),
     "sent_order_zero": tiered(extra.sent_order_zero),
     "sent_anchor_key": tiered(extra.sent_anchor_key),
+    "prov_option_forwarding": tiered(extra.prov_option_forwarding),
+    "prov_hcount_bookkeeping": tiered(extra.prov_hcount_bookkeeping),
+    "sent_annotation_value": tiered(extra.sent_annotation_value),
+    "prov_fragment_attrs": tiered(extra.prov_fragment_attrs),
+    "own_layout_input": tiered(extra.own_layout_input),
+    "own_fresh_fragment": tiered(extra.own_fresh_fragment),
     "sent_numeric_attrs": tiered(extra.sent_numeric_attrs),
     "ord_complete_loops": tiered(extra.ord_complete_loops),
     "own_mutable_defaults_layout": named("own_mutable_defaults_layout", own.own_mutable_defaults, "quick", tuple(own.SKIP_MODULES), 2),
@@ -131,12 +137,12 @@ EXPL = ("Static analysis of /repo's current source, nothing is executed: ast, ha
         "canonical access paths, abstract evaluation of small predicates over finite domains, effect summaries, emission models. "
         "Each obligation is a necessary structural clause of the property; the behaviour as a whole is not decided.")
 
-prop("C01", ["prov_bond_edge", "tok_rules", "ord_resolve_phases", "sib_atomistic_level", "prov_copy_complete", "ord_complete_loops"],
+prop("C01", ["prov_bond_edge", "tok_rules", "ord_resolve_phases", "sib_atomistic_level", "prov_copy_complete", "ord_complete_loops", "prov_hcount_bookkeeping", "ord_hydrogens"],
      "the cut bond's order travels from descriptor to bond (int(d[-1]) / 1.5 iff both ends aromatic); a bond-order symbol is consumed by exactly "
      "one thing in the fragment tokenizer (ring digits and atoms clear the pending order); phase order instantiate < connect < squash < hydrogens < sort; "
      "reader and resolver agree on which level is atomistic; fragment copies are complete",
      "equality with the original molecule: hydrogen counts, aromatic orders, charges come from pysmiles; choice of descriptor pair is data dependent",
-     floors={"ORD.complete-loops": 11, "PROV.bond-order": 1, "TOK.T2-ring": 2, "TOK.T3-atom": 4, "TOK.invariant": 1, "ORD.resolve-phases": 10, "SIB.S4-atomistic-level": 4})
+     floors={"PROV.hcount-bookkeeping": 2, "ORD.complete-loops": 11, "PROV.bond-order": 1, "TOK.T2-ring": 2, "TOK.T3-atom": 4, "TOK.invariant": 1, "ORD.resolve-phases": 10, "SIB.S4-atomistic-level": 4})
 prop("C02", ["key_fragid", "prov_annotate_lookup", "ord_resolve_annotate", "tab_copy_attrs", "prov_h_inherit", "prov_copy_complete", "prov_squash", "ord_complete_loops"],
      "membership is written in the key space it is read in; annotate_fragments files each fine node under the coarse keys it records; the per-node graphs "
      "are derived after sorting and after the last change of the fine node set; hydrogens inherit fragid/fragname/weight from their heavy atom; "
@@ -144,42 +150,42 @@ prop("C02", ["key_fragid", "prov_annotate_lookup", "ord_resolve_annotate", "tab_
      "isomorphism of each block with its template after squashing and hydrogen completion; content of 'mapping'",
      floors={"ORD.complete-loops": 11, "PAIR.squash-membership": 1, "KEY.K1-fragid": 1, "PROV.annotate-lookup": 3, "ORD.resolve-annotate": 6, "TAB.copy_attrs": 3, "PROV.h-inherit": 3, "PROV.copy-complete": 5})
 prop("C03", ["tt_compatible", "prov_matcher_shape", "who_may_bond", "prov_matcher_args", "trip_bond_loop",
-             "pair_resolver_consume", "prov_bond_edge", "sent_order_zero", "ord_complete_loops"],
+             "pair_resolver_consume", "prov_bond_edge", "sent_order_zero", "ord_complete_loops", "det_shared_state_resolver", "prov_option_forwarding"],
      "compatibility truth table over 320 abstract states; matcher shape; sole bond site; matcher arguments are the two ends of the iterated base-graph edge; "
      "loop trip count = edge order from 0; consume-on-use pairing on every path; provenance of endpoints, recorded pair and order",
      "'exactly that many' bonds depends on first-match search order over runtime lists",
-     floors={"ORD.complete-loops": 11, "SENT.order-zero": 20, "TT.compatible": 1, "PROV.matcher-shape": 4, "OWN.sole-bond-site": 1, "PROV.matcher-args": 1,
+     floors={"PROV.option-forwarding": 8, "ORD.complete-loops": 11, "SENT.order-zero": 20, "TT.compatible": 1, "PROV.matcher-shape": 4, "OWN.sole-bond-site": 1, "PROV.matcher-args": 1,
              "PROV.legacy-forwarded": 2, "TRIP.bond-loop": 3, "PAIR.resolver-consume": 3, "PROV.bond-edge": 2, "PROV.bond-order": 1})
-prop("C04", ["tab_reader_symbols", "da_reader", "da_globals_reader", "sib_ring_handlers", "prov_ring_edges", "prov_node_attributes"],
+prop("C04", ["tab_reader_symbols", "da_reader", "da_globals_reader", "sib_ring_handlers", "prov_ring_edges", "prov_node_attributes", "sent_order_zero"],
      "a sliver: the reader's symbol table equals the documented one and its guard admits every symbol; no possibly-unbound local on a feasible path of the "
      "reader functions; the %nn and digit ring handlers perform the same open/close protocol; a ring bond joins opening and closing node with the order "
      "written at the opening marker and the pending ring order is reset after every marker; node attributes come from the node's own text",
      "whether nodes, edges and orders are the ones the grammar denotes: index arithmetic over the pattern string (simultaneous branch closings, "
      "unbounded %nn digits) has no structural witness in reach",
-     floors={"TAB.reader-symbols": 2, "DA.reader": 5, "SIB.S2-ring-handlers": 3, "PROV.ring-edges": 6, "PROV.node-attributes": 4})
-prop("C05", ["da_reader", "trip_multiplier", "sib_multiplier_scans", "sent_anchor_key"],
+     floors={"SENT.order-zero": 20, "TAB.reader-symbols": 2, "DA.reader": 5, "SIB.S2-ring-handlers": 3, "PROV.ring-edges": 6, "PROV.node-attributes": 4})
+prop("C05", ["da_reader", "trip_multiplier", "sib_multiplier_scans", "sent_anchor_key", "sent_order_zero"],
      "definite assignment in the branch expansion block (base_anchor); trip counts of node loop, recipe entries, _expand_branch and the branch loop "
      "(multiplier - 1); both multiplier number scans stop at the same token set including the order symbols",
      "isomorphism of shorthand and longhand for nested anchors (prev_node + offset arithmetic), bond orders between copies",
      floors={"SENT.anchor-key": 1, "DA.reader": 5, "TRIP.multiplier": 4, "SIB.S3-multiplier-scan": 2})
-prop("C06", ["sib_atomistic_level", "ord_resolve_handover", "sib_drivers", "ord_resolve_phases", "prov_squash", "prov_bond_edge"],
+prop("C06", ["sib_atomistic_level", "ord_resolve_handover", "sib_drivers", "ord_resolve_phases", "prov_squash", "prov_bond_edge", "own_fresh_fragment", "prov_option_forwarding"],
      "reader and resolver use the same 'last level and last_all_atom' predicate (linear normal form); hand-over of fine graph to coarse graph, names, "
      "level dictionary, counter advanced once after last use; resolve_iter / resolve_all only delegate",
      "isomorphism with the flattened two-level string; per-step guarantees are decided under C02/C03",
-     floors={"ORD.resolve-phases": 10, "SIB.S4-atomistic-level": 4, "ORD.resolve-handover": 4, "SIB.S7-drivers": 3, "PROV.level-index": 1, "ORD.counter": 1})
-prop("C07", ["tab_writer_symbols", "emit_write_graph", "prov_ring_edges"],
+     floors={"OWN.fresh-fragment": 2, "ORD.resolve-phases": 10, "SIB.S4-atomistic-level": 4, "ORD.resolve-handover": 4, "SIB.S7-drivers": 3, "PROV.level-index": 1, "ORD.counter": 1})
+prop("C07", ["tab_writer_symbols", "emit_write_graph", "prov_ring_edges", "sent_order_zero", "prov_option_forwarding"],
      "writer table restricted to 0..4 is the inverse of the reader's table and the documented one; per-node and per-ring emission words over all "
      "guard assignments: tree-edge symbol present iff needed and placed where the reader of that format looks (before '(' in CGsmiles, inside in "
      "OpenSMILES), ring symbol immediately before a new marker iff needed, independent of the node-format flag",
      "that the reader reconstructs the graph from a string of the documented language (C04), DFS and ring-marker allocation, more than 9 open rings",
      floors={"PROV.ring-marker": 2, "PROV.ring-edges": 6, "TAB.writer-symbols": 2, "EMIT.write_graph": 2, "SIB.S5-format-flag": 1})
-prop("C08", ["emit_format_bonding", "tab_fragment_symbols", "tok_rules", "emit_write_graph"],
+prop("C08", ["emit_format_bonding", "tab_fragment_symbols", "tok_rules", "emit_write_graph", "prov_option_forwarding"],
      "format_bonding only ever extends its accumulator and writes SYM? '[' descriptor[:-1] ']' per descriptor with the symbol of its own order for "
      "orders 0, 2, 3, 4; the fragment reader maps every written symbol back to its order; the tokenizer's descriptor rules incl. `is not None` for the pending order",
      "equality of the re-read fragment graphs (pysmiles writes and parses the atoms); coarse fragments are written with the fragment's name in place of "
      "each node's own name (seen while reading, outside the rules)",
      floors={"EMIT.write_graph": 2, "EMIT.format_bonding": 4, "TAB.fragment-symbols": 1, "SENT.pending-order": 1, "TOK.T5-descriptor": 6})
-prop("C09", ["ord_resolve_phases", "ord_sample_finalise", "ord_hydrogens", "tab_copy_attrs", "prov_h_inherit", "sent_numeric_attrs"],
+prop("C09", ["ord_resolve_phases", "ord_sample_finalise", "ord_hydrogens", "tab_copy_attrs", "prov_h_inherit", "sent_numeric_attrs", "ord_complete_loops", "own_templates_sampler", "prov_hcount_bookkeeping"],
      "every all-atom path of resolver and sampler passes the hydrogen rebuild after the last connectivity change and before renumbering; inside the rebuild: "
      "reset hcount to 0 < fill_valence(respect_hcount=False) < add_explicit_hydrogens, aromatic correction < fill; keep_bonding unused; hydrogens inherit attributes",
      "the numbers themselves (valence lists, charges, aromatic correction) are pysmiles'",
@@ -189,30 +195,30 @@ prop("C10", ["prov_squash", "ord_resolve_phases", "prov_bond_edge", "tt_compatib
      "recorded; self_loops=False; result assigned back; kept node's fragid/mapping extended on every path; connect < squash < hydrogens; the pair is recorded on the bond",
      "equivalence with the disjoint description; aromaticity and hydrogen refill on the merged graph",
      floors={"TT.compatible": 1, "PROV.squash-protocol": 6, "PAIR.squash-membership": 1, "ORD.resolve-phases": 10})
-prop("C11", ["trip_bond_loop", "exc_missing_fragment", "key_fragid", "sent_order_zero"],
+prop("C11", ["trip_bond_loop", "exc_missing_fragment", "key_fragid", "sent_order_zero", "prov_annotate_lookup"],
      "range(0, order) bounds bonds per edge (none for order 0); a fragment-less node is skipped only if all incident orders are 0, else SyntaxError, and "
      "creates no fine nodes; skipping a node does not shift the membership of the others",
      "that the fine molecule is unchanged follows from these plus C03 only for the clauses decided there",
      floors={"SENT.order-zero": 20, "TRIP.bond-loop": 3, "EXC.X3-missing-fragment": 3, "KEY.K1-fragid": 1})
-prop("C12", ["own_templates_resolver", "own_mutable_defaults", "det_resolver", "sib_constructors", "prov_sort_key", "prov_fragdict_by_key", "prov_atom_names", "prov_annotate_lookup", "key_fragid", "det_shared_state_resolver"],
+prop("C12", ["own_templates_resolver", "own_mutable_defaults", "det_resolver", "sib_constructors", "prov_sort_key", "prov_fragdict_by_key", "prov_atom_names", "prov_annotate_lookup", "key_fragid", "det_shared_state_resolver", "own_fresh_fragment", "prov_option_forwarding"],
      "no function reachable from the resolver mutates a fragment template or library (effect summaries at structure / attribute / value depth; shared "
      "value flows judged against reachable in-place mutation sites); 11 mutable defaults are read-only; no nondeterminism source or order-sensitive set "
      "iteration on resolver paths; constructors forward options and split levels identically; new keys are positions in (membership, old key) order; "
      "fragment dictionaries are only accessed by key; atom names are element + position within the coarse node's atom list",
      "contiguity of blocks; determinism of pysmiles itself is assumed; shared atoms are named once per coarse node they belong to",
      floors={"DET.shared-state": 15, "OWN.templates-resolver": 10, "OWN.mutable-defaults": 8, "DET.resolver": 15, "SIB.S1-constructors": 9, "PROV.sort-key": 4, "PROV.fragdict-by-key": 2, "PROV.atom-names": 2})
-prop("C13", ["tok_rules"],
+prop("C13", ["tok_rules", "tab_dialects"],
      "dispatch map and per-branch effects of the tokenizer: T0 text conservation, T1 symbols set the pending order, T2 ring digits go to the previous atom "
      "and clear the pending order, T3 atoms advance (previous := counter; counter += 1) and clear it, annotations under the pre-increment index, T4 "
      "branch stack, T5 descriptor text / atom / order sources / consume, T6 slashes, and the invariant over admissible token successions",
      "anything about the cleaned text being valid SMILES; `( symbol descriptor )` leaves an empty branch",
      floors={"TOK.T0-conservation": 3, "TOK.T1-symbol": 1, "TOK.T2-ring": 2, "TOK.T3-atom": 6, "TOK.T4-branch": 2, "TOK.T5-descriptor": 8,
              "TOK.T6-slash": 1, "TOK.invariant": 1, "SENT.pending-order": 1})
-prop("C14", ["tab_dialects", "ord_parse_pipeline", "prov_node_attributes", "prov_copy_complete", "exc_annotations", "prov_h_inherit", "sent_numeric_attrs"],
+prop("C14", ["tab_dialects", "ord_parse_pipeline", "prov_node_attributes", "prov_copy_complete", "exc_annotations", "prov_h_inherit", "sent_numeric_attrs", "ord_complete_loops", "sent_annotation_value", "prov_fragment_attrs"],
      "both dialect signatures, defaults, types, rename maps equal the documented table; bind < cast < defaults, cast < rename, cast keyed by name over all "
      "bound arguments; base-graph node attributes come from the node's own text (also for multiplied copies and recipes); fragment copies keep all attributes",
      "numeric spellings (python's float); `q=` at the coarse-fragment level is parsed by the atomistic dialect (seen while reading, outside the rules)",
-     floors={"SENT.numeric-attribute": 30, "SENT.attribute-value": 1, "TAB.dialects": 3, "ORD.parse-pipeline": 6, "PROV.node-attributes": 4, "PROV.copy-complete": 5})
+     floors={"SENT.annotation-value": 2, "PROV.fragment-attrs": 2, "SENT.numeric-attribute": 30, "SENT.attribute-value": 1, "TAB.dialects": 3, "ORD.parse-pipeline": 6, "PROV.node-attributes": 4, "PROV.copy-complete": 5})
 prop("C15", ["ord_resolve_stereo", "prov_relative_attr", "tok_rules", "prov_copy_complete"],
      "the cis/trans annotation runs after the last relabelling and after hydrogens exist, on the relabelled graph; node-referencing attributes are "
      "remapped through the relabelling map and shifted on merge; slash marks are recorded for the atoms around them; chirality annotations are copied",
@@ -236,11 +242,11 @@ prop("C18", ["da_globals_rdkit", "key_rdkit", "norm_bead", "tab_bond_types", "pr
      "weighted sum over the bead's own atoms / sum of those weights; bond type table; element, charge, hydrogen count and bond order are carried by both conversions",
      "everything RDKit computes (sanitisation, embedding, distances)",
      floors={"DA.globals": 2, "KEY.K2-rdkit": 5, "NORM.bead": 3, "TAB.bond-types": 1, "PROV.rdkit-attrs": 8})
-prop("C19", ["norm_scale", "own_mutable_defaults_layout"],
+prop("C19", ["norm_scale", "own_mutable_defaults_layout", "own_layout_input"],
      "mean bond length = sum of end-point distances over all edges / number of edges; every position multiplied by default_bond / mean; only isometries "
      "may write positions afterwards; the rescaled dict is returned",
      "finiteness, non-coincidence of bonded nodes, independence from labelling: numerical properties of networkx' optimisers",
-     floors={"OWN.mutable-defaults": 2, "NORM.scale": 2, "ORD.scale-last": 2})
+     floors={"OWN.layout-input": 1, "OWN.mutable-defaults": 2, "NORM.scale": 2, "ORD.scale-last": 2})
 prop("C20", ["exc_dangling_ring", "sib_ring_handlers", "exc_duplicate_edge", "exc_missing_fragment", "exc_annotations", "exc_handlers", "tab_dialects"],
      "each documented fault has a raise site of the documented type whose guard dominates the success exit; the open-ring table is written only by the two "
      "identical handlers; no handler between fault site and API swallows or retypes the error; numeric keys are declared float",
